@@ -86,6 +86,7 @@ def resolve_boundary(lib, spec):
 
 
 def run_solve(lib, boundary, n=None, **scn):
+    infer_thomas_labels(lib)
     b = lib.body(SFK)
     if isinstance(boundary, BSpec):
         try:
@@ -378,6 +379,80 @@ class TModel(SModel):
         return r
 
 
+def solver_args(lib, m, names):
+    """arguments for the tridiagonal solver as its signature wants them: k, the three coefficient arrays (named `names` in the order
+    they appear, one by one or as fields of a private struct), rhs.  Returns (args, k, {name: arr1}, rhs)"""
+    b = lib.body(THOMAS)
+    adts = {a['path']: a for a in lib.f.get('adts', [])}
+    ps = [p_.get('ty', '') if isinstance(p_, dict) else str(p_) for p_ in b['params']]
+    k = m.new_arr2(m.n, 'k', sym='k')
+    rhs = m.new_arr2(m.n, 'rhs', sym='rhs')
+    arrs = {}
+    names = list(names)
+
+    def fresh1():
+        nm = names[len(arrs)]
+        a = m.new_arr1(m.n, nm)
+        a.d['t'].sym = nm
+        arrs[nm] = a
+        return a
+    args = [k]
+    for ty in ps[1:-1]:
+        t = strip_generics(ty.lstrip('&').replace('mut ', '', 1).strip())
+        if t in adts and adts[t].get('variants'):
+            fields = {}
+            for f_ in adts[t]['variants'][0]['fields']:
+                fields[f_['name']] = fresh1() if 'ndarray::Dim<[usize; 1]>' in f_['ty'] else Opaque('field ' + f_['name'])
+            v = Enum(t, adts[t]['variants'][0]['name'], fields)
+            args.append(Ref(ValPlace(v)) if ty.startswith('&') else v)
+        else:
+            a = fresh1()
+            args.append(Ref(ValPlace(a)) if ty.startswith('&') else a)
+    args.append(Ref(ValPlace(rhs)) if ps[-1].startswith('&') else rhs)
+    return args, k, arrs, rhs
+
+
+def infer_thomas_labels(lib):
+    """which of the solver's three coefficient arrays is the upper / main / lower diagonal, read off how the forward sweep uses them:
+    the one it updates is the main diagonal m; in  m'[j] = m[j] - (L[j] / m'[j-1]) * U[j-1]  the other array read at row j is the lower,
+    the one read at row j-1 the upper diagonal.  Cached on lib as `thomas_labels` (by position)."""
+    if getattr(lib, 'thomas_labels', None):
+        return lib.thomas_labels
+    b = lib.body(THOMAS)
+    if b is None:
+        return None
+    anon = ['A0', 'A1', 'A2']
+    m = TModel()
+    it = Interp(lib, m)
+    try:
+        args, k, arrs, rhs = solver_args(lib, m, anon)
+        it.call_def(b['def'], args)
+    except (Unsupported, Diverge, IndexError, KeyError):
+        return None
+    fw = m.loop_reports[0] if m.loop_reports else None
+    if not fw:
+        return None
+    upd = [n_ for n_ in fw['generic'] if n_ in anon]
+    if len(upd) != 1:
+        return None
+    mid = upd[0]
+    val = fw['generic'][mid][1]
+    j = fw['var']
+    low = up = None
+    for a_ in val.atoms():
+        mm = re.match(r'^(A\d)\[(.*)\]$', a_)
+        if not mm or mm.group(1) == mid:
+            continue
+        if mm.group(2) == j:
+            low = mm.group(1)
+        elif mm.group(2) == str(A(j) - 1):
+            up = mm.group(1)
+    if low is None or up is None or len({low, up, mid}) != 3:
+        return None
+    lib.thomas_labels = [{'%s' % up: 'up', mid: 'mid', low: 'low'}[n_] for n_ in anon]
+    return lib.thomas_labels
+
+
 def thomas_evaluates(lib):
     """None if the solver body evaluates in the lane-generic model, else the exception"""
     b = lib.body(THOMAS)
@@ -385,15 +460,9 @@ def thomas_evaluates(lib):
         return Unsupported("solver not found")
     m = TModel()
     it = Interp(lib, m)
-    k = m.new_arr2(m.n, 'k')
-    arrs = []
-    for name in ('up', 'mid', 'low'):
-        a = m.new_arr1(m.n, name)
-        a.d['t'].sym = name
-        arrs.append(a)
-    rhs = m.new_arr2(m.n, 'rhs', sym='rhs')
     try:
-        it.call_def(b['def'], [k] + arrs + [rhs])
+        args, k, arrs, rhs = solver_args(lib, m, infer_thomas_labels(lib) or ['up', 'mid', 'low'])
+        it.call_def(b['def'], args)
         return None
     except (Unsupported, Diverge) as ex:
         return ex
@@ -407,16 +476,12 @@ def check_thomas(chk, lib, rule):
     m = TModel()
     it = Interp(lib, m)
     n = m.n
-    k = m.new_arr2(n, 'k', sym='k')
-
-    def sym1(name):
-        a = m.new_arr1(n, name)
-        a.d['t'].sym = name
-        return a
-    up, mid, low = sym1('up'), sym1('mid'), sym1('low')
-    rhs = m.new_arr2(n, 'rhs', sym='rhs')
+    labels = infer_thomas_labels(lib)
+    chk.ob(rule, "the roles of the solver's three coefficient arrays (upper / main / lower diagonal) follow from how the forward sweep uses them: %s" % (labels,),
+           labels is not None, where, 'thomas-roles')
     try:
-        it.call_def(b['def'], [k, up, mid, low, rhs])
+        args, k, arrs, rhs = solver_args(lib, m, labels or ['up', 'mid', 'low'])
+        it.call_def(b['def'], args)
     except (Unsupported, Diverge) as ex:
         chk.ob(rule, "the solver is within the reviewed lane-wise surface: %s" % ex, False, ex.where, 'thomas-unrecognised')
         return
